@@ -159,6 +159,16 @@ fn one<F: RF>(st: &mut Stats, c: &Case, opts: &ValueOpts, v: &DecN) {
                 let want = expected(v, f);
                 viol(st, "misrounded", format!("{:#x}", bits), format!("{:#x}", want));
             }
+            // the same valid digits through an iterator with an inexact size hint (Filter / TakeWhile): every 4th input of
+            // 20 or more digits. The value is a function of the digits, not of the iterator type (round 8, C02-Q / C06-Q).
+            if ok && c.int.len() + c.frac.len() >= 20 && st.calls % 4 == 0 {
+                st.bump("lossy_iterator_checked");
+                match real::parse_lossy::<F>(c.int, c.frac, c.exp, (st.calls / 4 % 2) as u8) {
+                    Ok(b2) if b2 == bits => {},
+                    Ok(b2) => viol(st, "misrounded-through-filter-or-take_while-iterator", format!("{:#x}", b2), format!("{:#x}", bits)),
+                    Err(msg) => viol(st, "panic-through-filter-or-take_while-iterator", format!("panic: {}", msg), format!("{:#x}", bits)),
+                }
+            }
             if opts.core_cross {
                 let len = c.int.len() + c.frac.len();
                 if len > 0 && (len <= 64 || (st.calls % 16 == 0 && len <= 3000)) {
